@@ -43,7 +43,7 @@ n = len(rows)
 miss = [r for r in rows if 'not detected' in r]
 text = """## 10. Seeded changes and what catches them
 
-%d breaking changes were written by fresh sub-agents (two rounds, `a` and `b`) that saw only the text of one property and a
+%d breaking changes were written by fresh sub-agents (three rounds, `a`, `b` and `c`) that saw only the text of one property and a
 scratch worktree of /repo -- nothing from /verif.  Each compiles, passes the pinned suite unedited, and fails a
 demonstration that passes on the pristine tree; I confirmed all three facts myself in a scratch worktree
 (`tools/confirm_seeded.py`) before keeping the change as `seeded/<id>/{patch.diff, demo.rs, meta.json}`.
@@ -61,9 +61,23 @@ Not detected (%d): %s
 Round `a` initially had eight misses (C01a-1, C14a-1..3, C18a-1, C18a-3, C20a-2); they led to C14 rule X, C18 rules
 S / Si / TA and C20 rule W.  Round `b` added C12 K2 (`clone_from`), the semantic fall-back of C12 K, more C14 salt
 lengths, the `aes_force_soft` + static `+aes` configuration for C17 H, C17 rules M / I, C04 B4, and the bit-level
-engine (C01 for the software AES, Serpent, DES, GIFT; C04 L for fixslice; C03 C).
+engine (C01 for the software AES, Serpent, DES, GIFT; C04 L for fixslice; C03 C).  Round `c` added the 256 / 512-byte
+lengths of C18 S / Si, tails of two and three blocks in the probes, the `alt1` / `alt2` cfg combinations in the quick tier
+of C17 / C20 / C01, the all-features configuration of C05, and the Kuznyechik `compact_soft` proof in C01.  The two
+changes that stay undetected are outside what is claimed: C05c-1 is a fast path inside `gen_keys` that returns wrong
+subkeys for two of the mixed weak keys (conformance of the DES key schedule, section 7), C18b-3 uses `to_ne_bytes` for
+the round counter and is wrong on big-endian targets only (not in the configuration matrix).
 
 ### Behaviour-preserving patches (must stay silent)
+
+The first ten were written by me while building the rules, twelve by a sub-agent asked for plausible refactorings in the
+areas the term-based rules cover (helper extraction, loop forms, renamed locals, correct `clone_from` / `new_checked`
+overrides, iterator forms), two more target specific anchors (a renamed `sub_bytes`, a `zeroize` wipe of a temporary).
+They found three false alarms, all repaired by making the rule semantic rather than by loosening it: C19 did not know
+the `debug_struct(..).finish_non_exhaustive()` builder, C14 W required the callee set of `salted_expand_key` to be exact
+(a helper extraction tripped it; it is transitive now and P became a term rule), and C03 F reported every feature-gated
+difference in MIR (a wipe of a temporary is now decided by comparing result terms).  For the benign patches the checks
+relevant to the touched crate are run (listed in each `meta.json`).
 
 | patch | change | all checks |
 |-------|--------|------------|
